@@ -257,6 +257,17 @@ pub fn parse_bool(value: &str) -> Result<bool, CompilerError> {
     }
 }
 
+/// A name the author gives to a knot, stitch, function or label: letters,
+/// digits and underscores, and not digits only (a path reads an all-digit
+/// component as an index, and a dot as a separator).
+pub fn is_identifier(text: &str) -> bool {
+    !text.is_empty()
+        && text
+            .chars()
+            .all(|ch| ch.is_ascii_alphanumeric() || ch == '_')
+        && !text.chars().all(|ch| ch.is_ascii_digit())
+}
+
 pub fn parse_path_identifier(text: &str) -> Option<&str> {
     let end = text
         .char_indices()
